@@ -170,50 +170,45 @@ Lemma domain_of_ip_literal h :
   is_ip_literal (get_hostname h) = true -> get_domain h = get_hostname h.
 Proof. unfold get_domain. now intros ->. Qed.
 
-Lemma domain_v6 a s :
-  a_host a = HV6 s -> wf_authority a = true ->
-  get_domain (render_authority a) = to_lower s.
-Proof.
-  intros Hh Hwf. rewrite domain_of_ip_literal; rewrite hostname_of_rendered by assumption; rewrite Hh; [reflexivity|].
-  cbn [host_text]. unfold wf_authority in Hwf. rewrite Hh in Hwf.
-  apply andb_true_iff in Hwf as [H _]. apply andb_true_iff in H as [_ Hc].
-  unfold is_ip_literal. rewrite mem_byte_to_lower by reflexivity. now rewrite Hc.
-Qed.
-
-Lemma domain_v4 a s :
-  a_host a = HName s -> wf_authority a = true -> is_ipv4 (to_lower s) = true ->
-  get_domain (render_authority a) = to_lower s.
-Proof.
-  intros Hh Hwf H4. rewrite domain_of_ip_literal; rewrite hostname_of_rendered by assumption; rewrite Hh; [reflexivity|].
-  cbn [host_text]. unfold is_ip_literal. now rewrite H4, orb_true_r.
-Qed.
-
-Lemma domain_name_labels a s :
-  a_host a = HName s -> wf_authority a = true -> is_ip_literal (to_lower s) = false ->
-  get_domain (render_authority a) =
-    match split_byte dot (to_lower s) with
-    | _ :: ((_ :: _ :: _) as rest) => join_with [dot] rest
-    | _ => to_lower s
-    end.
-Proof.
-  intros Hh Hwf Hip. unfold get_domain. rewrite hostname_of_rendered by assumption. rewrite Hh.
-  cbn [host_text]. now rewrite Hip.
-Qed.
-
-(* an authority whose host is an IP literal (bracketed IPv6, or a dotted quad) *)
-Definition ip_authority (a : authority) : bool :=
-  match a_host a with
-  | HV6 _ => true
-  | HName s => is_ipv4 (to_lower s)
-  end.
+(* an authority whose host text is an IP literal for netip.ParseAddr (as modelled by parse_addr_ok) *)
+Definition ip_authority (a : authority) : bool := is_ip_literal (to_lower (host_text (a_host a))).
 
 Lemma domain_ip_whole a :
   wf_authority a = true -> ip_authority a = true ->
   get_domain (render_authority a) = to_lower (host_text (a_host a)).
 Proof.
-  intros Hwf Hip. unfold ip_authority in Hip. destruct (a_host a) as [s|s] eqn:Hh; cbn [host_text].
-  - now apply domain_v4.
-  - now apply domain_v6.
+  intros Hwf Hip. unfold ip_authority in Hip.
+  rewrite domain_of_ip_literal; rewrite hostname_of_rendered by assumption; [reflexivity|assumption].
+Qed.
+
+Lemma domain_v6 a s :
+  a_host a = HV6 s -> wf_authority a = true -> is_ip_literal (to_lower s) = true ->
+  get_domain (render_authority a) = to_lower s.
+Proof.
+  intros Hh Hwf Hip. rewrite domain_ip_whole; [now rewrite Hh|assumption|].
+  unfold ip_authority. now rewrite Hh.
+Qed.
+
+Lemma domain_v4 a s :
+  a_host a = HName s -> wf_authority a = true -> is_ip_literal (to_lower s) = true ->
+  get_domain (render_authority a) = to_lower s.
+Proof.
+  intros Hh Hwf Hip. rewrite domain_ip_whole; [now rewrite Hh|assumption|].
+  unfold ip_authority. now rewrite Hh.
+Qed.
+
+(* everything else - DNS names, dotted numbers netip rejects, bracketed text that is no IPv6
+   literal - follows the label rule *)
+Lemma domain_name_labels a :
+  wf_authority a = true -> ip_authority a = false ->
+  get_domain (render_authority a) =
+    match split_byte dot (to_lower (host_text (a_host a))) with
+    | _ :: ((_ :: _ :: _) as rest) => join_with [dot] rest
+    | _ => to_lower (host_text (a_host a))
+    end.
+Proof.
+  intros Hwf Hip. unfold ip_authority in Hip. unfold get_domain.
+  rewrite hostname_of_rendered by assumption. now rewrite Hip.
 Qed.
 
 Lemma same_domain_ip_iff a b via :
@@ -224,6 +219,19 @@ Lemma same_domain_ip_iff a b via :
 Proof.
   intros Ha Hb Ia Ib. cbn [permits hd]. rewrite !domain_ip_whole by assumption. apply bytes_eqb_eq.
 Qed.
+
+(* the dispatch of netip.ParseAddr and a few boundary literals, kept checked *)
+Lemma parse_addr_examples :
+  map (fun t => parse_addr_ok (bs t))
+      ["::1"; "::"; "2001:db8::1%eth0"; "fe80::1%"; "::ffff:1.2.3.4"; "1:2:3:4:5:6:7:8"; "1:2:3:4:5:6:7::";
+       "1:2:3:4:5:6:7:8:9"; "1::2::3"; "12345::"; "1:2:3:4:5:6:1.2.3.4"; "1:2:3:4:5:6:7:1.2.3.4";
+       "::ffff:1.2.3.256"; ":::"; "1:2:3:4:5:6:7::8"; "1.2.3.4"; "1.2.3"; "01.2.3.4"; "256.1.1.1"; "1.2.3.4.";
+       "a:b.c.d"; "example.com"; ""]%string =
+  [true; true; true; false; true; true; true;
+   false; false; false; true; false;
+   false; false; false; true; false; false; false; false;
+   false; false; false].
+Proof. vm_compute. reflexivity. Qed.
 
 Lemma domain_pinned_refuted :
   get_domain_pinned (bs "1.2.3.4") = get_domain_pinned (bs "9.2.3.4").
